@@ -363,7 +363,7 @@ func (c *Ctx) CheckTable(rule string, fn *ssa.Function, atoms []string, spec fun
 // the field's address passed as first argument to a sync/atomic function.
 // plain maps a function name to the reason a plain access there is fine
 // (constructor before publication). Returns the number of atomic sites.
-func (c *Ctx) AtomicOnly(rule, typ, field string, plain map[string]string) int {
+func (c *Ctx) AtomicOnly(rule, typ, field string, plain map[string]string, alsoCallees ...string) int {
 	n := 0
 	usedPlain := map[string]bool{}
 	for _, fn := range c.P.Funcs {
@@ -387,6 +387,11 @@ func (c *Ctx) AtomicOnly(rule, typ, field string, plain map[string]string) int {
 					args := CallArgs(ci)
 					if strings.HasPrefix(cn, "sync/atomic.") && len(args) > 0 && args[0] == fa.Addr {
 						ok = true
+					}
+					for _, a := range alsoCallees {
+						if cn == a {
+							ok = true
+						}
 					}
 				}
 			}
